@@ -282,3 +282,7 @@ def run(prog, rep):
     # ---------------------------------------------------------------- R1.6 (CSV stream: rows are neither lost nor invented at chunk boundaries)
     from rules import c09
     c09.check_lookahead_fresh(prog, rep, 'R1.6')
+
+    # ---------------------------------------------------------------- R1.7 strings keep their length on the way through the library
+    from rules import lengths
+    lengths.check(prog, rep, 'R1.7')
